@@ -156,15 +156,13 @@ def execute(case):
         cvrs = W.mk_cvrs(ns, recs)
         try:
             got = ns.CVR.merge_cvrs(cvrs)
-        except ValueError as e:
-            out.raised("merge_cvrs", e)
-            out.ev("merge", "ValueError")
-            if ref is not None:
-                out.violate("C18.e", "merge/raised-without-conflict", f"merge raised {e!r} although tally pools do not conflict")
-            return out
         except Exception as e:
             out.raised("merge_cvrs", e)
-            out.violate("C18.a", f"merge/raised-{type(e).__name__}", f"merge raised {e!r}")
+            out.ev("merge", "raised")
+            if ref is not None:  # (on a conflict any error is a refusal; the statement does not name its type)
+                out.violate("C18.e" if isinstance(e, ValueError) else "C18.a",
+                            "merge/raised-without-conflict" if isinstance(e, ValueError) else f"merge/raised-{type(e).__name__}",
+                            f"merge raised {e!r} although tally pools do not conflict")
             return out
         out.ev("merge", [[c.id, c.votes, bool(c.phantom), type(c.pool).__name__ if not isinstance(c.pool, (bool, np.bool_)) else bool(c.pool),
                           c.tally_pool] for c in got])
